@@ -192,3 +192,62 @@ Lemma new_types_need_new_firmware : forall ver t rest,
   (ver < 9 -> (t = 8 \/ t = 9 \/ t = 10) -> fw_decode ver 7 0 (t :: rest) = None) /\
   (ver < 8 -> (t = 11 \/ t = 12) -> fw_decode ver 8 0 (t :: rest) = None).
 Proof. intros ver t rest. split; [apply new_types_need_v9|apply go_to_2_needs_v8]. Qed.
+
+(* ---------------------------------------------------------------- spiral saturation and NaN
+   The saturation of spiral() is comparison based (`if angle > 2*pi: ... elif angle < -2*pi: ...`, `if r0 < 0: ...`):
+   every comparison with NaN is false, so a NaN argument passes through unchanged and is transmitted as NaN.
+   A saturation written with Python's min/max (max(lower, min(upper, value))) keeps the FIRST argument when the
+   comparison with NaN is false and turns NaN into the upper limit. *)
+Definition nan_arg : pyval := PFloat S754_nan.
+
+Lemma spiral_nan_conditions cf en :
+  nth_error (e_args en) 0 = Some nan_arg -> nth_error (e_args en) 1 = Some nan_arg ->
+  nth_error (e_args en) 2 = Some nan_arg ->
+  eval_cond cf en (CGt (EArg 0) two_pi) = Ok false /\ eval_cond cf en (CLt (EArg 0) minus_two_pi) = Ok false /\
+  eval_cond cf en (CLt (EArg 1) (EInt 0)) = Ok false /\ eval_cond cf en (CLt (EArg 2) (EInt 0)) = Ok false.
+Proof.
+  intros H0 H1 H2. cbn [eval_cond eval]. rewrite H0, H1, H2. repeat split; reflexivity.
+Qed.
+
+Lemma spiral_nan_passes_through cf en :
+  8 <= c_ver cf ->
+  nth_error (e_args en) 0 = Some nan_arg -> nth_error (e_args en) 1 = Some nan_arg ->
+  nth_error (e_args en) 2 = Some nan_arg ->
+  run (fw_action CHlSpiral) cf en = emit en 8 0 [k8 11; a8 7; a8 5; a8 6; a32 0; a32 1; a32 2; a32 3; a32 4] false /\
+  run_api (api_action CHlSpiral) cf en =
+    match vals en [a8 7; a8 5; a8 6; a32 0; a32 1; a32 2; a32 3; a32 4] with Ok ws => Some ws | Raise _ => None end /\
+  to_wire (KS F32) nan_arg = Ok nan32.
+Proof.
+  intros Hv H0 H1 H2. destruct (spiral_nan_conditions cf en H0 H1 H2) as (A & B & C & D).
+  split; [|split; [|reflexivity]].
+  - cbn [fw_action run]. cbn [eval_cond]. replace (c_ver cf <? 8) with false by lia.
+    unfold spiral_tree, spiral_radii. cbn [run]. rewrite A, B. cbn [run]. rewrite C, D. reflexivity.
+  - cbn [api_action]. unfold spiral_tree, spiral_radii. cbn [run_api]. rewrite A, B. cbn [run_api]. rewrite C, D.
+    reflexivity.
+Qed.
+
+(* Python's two-argument min and max: the first argument unless the second compares smaller / larger *)
+Definition py_min2 (a b : pyval) : res pyval := bind (py_lt b a) (fun c => Ok (if c then b else a)).
+Definition py_max2 (a b : pyval) : res pyval := bind (py_gt b a) (fun c => Ok (if c then b else a)).
+Definition saturate_minmax (v lo hi : pyval) : res pyval := bind (py_min2 hi v) (fun m => py_max2 lo m).
+(* the comparison-based saturation of the current source *)
+Definition saturate_cmp (v lo hi : pyval) : res pyval :=
+  bind (py_gt v hi) (fun g => if g then Ok hi else bind (py_lt v lo) (fun l => Ok (if l then lo else v))).
+
+Definition pf_two_pi : pyval := PFloat (sf64_of_bits 4618760256179416344).       (* 2*math.pi *)
+Definition pf_minus_two_pi : pyval := PFloat (sf64_of_bits 13842132293034192152).  (* -2*math.pi *)
+
+Lemma saturation_on_nan :
+  saturate_cmp nan_arg pf_minus_two_pi pf_two_pi = Ok nan_arg /\
+  saturate_minmax nan_arg pf_minus_two_pi pf_two_pi = Ok pf_two_pi /\
+  bind (saturate_cmp nan_arg pf_minus_two_pi pf_two_pi) (to_wire (KS F32)) = Ok nan32 /\
+  bind (saturate_minmax nan_arg pf_minus_two_pi pf_two_pi) (to_wire (KS F32)) = Ok 1086918619 /\
+  saturate_minmax nan_arg (PFloat (S754_zero false)) (PFloat (S754_infinity false)) = Ok (PFloat (S754_infinity false)).
+Proof. vm_compute. repeat split. Qed.
+
+(* on everything that is not NaN the two agree (so only NaN tells them apart), shown on the limits themselves *)
+Lemma saturation_agree_examples :
+  saturate_cmp pf_two_pi pf_minus_two_pi pf_two_pi = saturate_minmax pf_two_pi pf_minus_two_pi pf_two_pi /\
+  saturate_cmp (PFloat (S754_infinity false)) pf_minus_two_pi pf_two_pi = saturate_minmax (PFloat (S754_infinity false)) pf_minus_two_pi pf_two_pi /\
+  saturate_cmp (PFloat (S754_infinity true)) pf_minus_two_pi pf_two_pi = saturate_minmax (PFloat (S754_infinity true)) pf_minus_two_pi pf_two_pi.
+Proof. vm_compute. repeat split. Qed.
